@@ -11,8 +11,10 @@ CASES_HEADER = "Require Import Nib.C10.Model Nib.C12.Model Nib.C12.Spec Nib.C12.
 CASE_TYPE = "case"
 MISMATCH_FN = "mismatch"
 VIOLATES_FN = "violates"
-RULE = ("case = a history of 8-24 steps on the x/oracle keeper fixture (fixed generated oracle params + whitelist, 2-5 "
-        "initial validators): 'end' = set the Votes store and run the real oracle.EndBlocker at the next vote-period "
+RULE = ("case = a history of 8-24 steps on the x/oracle keeper fixture (generated oracle params + whitelist, 2-5 "
+        "initial validators; in about half of the histories 'params' steps edit RewardBand / SlashFraction / "
+        "MinValidPerWindow / VoteThreshold / MinVoters on the way, half of the time to the zero values Params.Validate "
+        "accepts, mostly in the middle of a running slash window): 'end' = set the Votes store and run the real oracle.EndBlocker at the next vote-period "
         "end / slash-window end / next block; 'alloc' = AllocateRewards (1-2 denoms over 1-5 periods, overlapping); "
         "staking steps undelegate / delegate / jail / unjail / create validator / staking.EndBlocker (unbonding, "
         "removal with 1 s unbonding time). Observed after every step: MissCounters, Rewards store, module balance, and "
@@ -68,13 +70,27 @@ def _sobs(o):
     return "(mkSObs %s %s %s %s %s %s)" % (_b(o["panic"]), miss, rewards, _zs(o["bal"]), paid, post)
 
 
+def _q(p):
+    return "(mkOP (mkParams %s %s %s 900%%Z %s) %s %s %s)" % (_z(p["vp"]), _z(p["thr"]), _z(p["minv"]), _z(p["band"]),
+                                                             _z(p["sf"]), _z(p["win"]), _z(p["mv"]))
+
+
+def _edited(cur, op):
+    """parameters in force from a 'params' step on (vote period / slash window are never edited)"""
+    n = dict(cur)
+    for k in ("thr", "minv", "band", "sf", "mv"):
+        n[k] = op["p"][k]
+    return n
+
+
 def to_coq_case(rec):
     inp, obs = rec["input"], rec["obs"] or []
-    p = inp["params"]
-    q = "(mkOP (mkParams %s %s %s 900%%Z %s) %s %s %s)" % (_z(p["vp"]), _z(p["thr"]), _z(p["minv"]), _z(p["band"]),
-                                                          _z(p["sf"]), _z(p["win"]), _z(p["mv"]))
+    cur = inp["params"]
     steps = []
     for op, o in zip(inp["ops"], obs):
+        if op["k"] == "params":
+            cur = _edited(cur, op)
+        q = _q(cur)
         if op["k"] == "end":
             t = "(OEnd %s %s %s)" % (_state(inp, op, o["pre"]), _svs(o["pre"]), _z(o["h"]))
         elif op["k"] == "alloc":
@@ -84,8 +100,8 @@ def to_coq_case(rec):
         vs = "[%s]" % "; ".join(
             "mkAVote %d [%s]" % (v["voter"], "; ".join("(%d, %s)" % (tu["p"], _z(tu["r"])) for tu in v["t"]))
             for v in o.get("votes") or [])
-        steps.append("(%s, %s, %s)" % (t, _sobs(o), vs))
-    return "(mkCase %s [%s])" % (q, ";\n     ".join(steps))
+        steps.append("(%s, %s, %s, %s)" % (q, t, _sobs(o), vs))
+    return "(mkCase [%s])" % ";\n     ".join(steps)
 
 
 def _flags(rec):
@@ -93,9 +109,33 @@ def _flags(rec):
     vp, win = inp["params"]["vp"], inp["params"]["win"]
     fl = set()
     prev_miss = []
+    cur = inp["params"]
+    running = True          # a slash window is running (the last EndBlocker step was not a window end)
+    edited = False
     for op, o in zip(inp["ops"], obs):
+        if op["k"] == "params":
+            new = _edited(cur, op)
+            fl.add("param-edit")
+            if running:
+                fl.add("param-edit-mid-window")
+                if prev_miss:
+                    fl.add("param-edit-mid-window-with-counters")
+            for k, nm in (("band", "RewardBand"), ("sf", "SlashFraction"), ("mv", "MinValidPerWindow")):
+                if int(new[k]) == 0 and int(cur[k]) != 0:
+                    fl.add("edit-to-zero:" + nm)
+            cur, edited = new, True
         if op["k"] == "end":
             h = o["h"]
+            running = (h + 1) % win != 0
+            zero = [nm for k, nm in (("band", "RewardBand"), ("sf", "SlashFraction"), ("mv", "MinValidPerWindow")) if int(cur[k]) == 0]
+            if (h + 1) % win == 0 and prev_miss:
+                for nm in zero:
+                    if nm != "RewardBand":
+                        fl.add("window-end-with-counters-under-zero:" + nm)
+                if edited:
+                    fl.add("window-end-with-counters-after-edit")
+            if (h + 1) % vp == 0 and "RewardBand" in zero and op.get("votes"):
+                fl.add("tally-under-zero:RewardBand")
             if (h + 1) % win == 0:
                 fl.add("window-end")
                 if prev_miss or ((h + 1) % vp == 0 and o["pre"] and any(True for _ in op.get("votes") or [])):
@@ -201,8 +241,10 @@ MANIFEST = {
                  "balance >= sum coins_per_period*periods_left over all histories), C12_tally_is_declarative (the loop with "
                  "sorted votes / performance map / missedValidators equals the declarative weight and miss count), "
                  "C12_abstain_never_miss, C12_miss_only_when_positive_out_of_band_on_quorum_pair, "
-                 "C12_valid_rate_uint64_wrap_is_benign, C12_counters_reset. The model is run against real keeper histories "
-                 "every run (oracle.EndBlocker + staking ops on the x/oracle fixture) and the proved-sound checker Pb_history "
+                 "C12_valid_rate_uint64_wrap_is_benign, C12_counters_reset; C12_history_with_param_edits_holds / "
+                 "C12_module_solvent_with_param_edits: the same over histories whose oracle parameters are edited between "
+                 "steps (every step judged under the parameters stored when it runs, zero-valued parameters included). The model is run against real keeper histories "
+                 "every run (oracle.EndBlocker + staking ops + parameter edits on the x/oracle fixture) and the proved-sound checker Pb_history12v "
                  "is evaluated on the implementation's observations. C12_refuted_before_fix: before fe7d502 a counter of a "
                  "removed validator panics the window end."),
         "design_ref": "DESIGN.md §5 C12",
